@@ -25,8 +25,12 @@ type Parked struct {
 	Name    string
 	Label   string
 	Enabled func() bool
-	ch      chan struct{}
-	gid     uint64
+	// Alts > 1: a choice point (which ready case a select tries first); the
+	// scheduler releases it with one of the alternatives 0..Alts-1.
+	Alts   int
+	choice int
+	ch     chan struct{}
+	gid    uint64
 }
 
 // Sched is one scheduler instance (one per execution).
@@ -121,16 +125,22 @@ func Point(label string) { PointIf(label, nil) }
 
 // PointIf is a scheduling point that may only be passed while enabled()
 // holds (nil = always). Outside a controlled scheduler it is a no-op.
-func PointIf(label string, enabled func() bool) {
+func PointIf(label string, enabled func() bool) { park(label, enabled, 1) }
+
+// PointChoice is a scheduling point at which the scheduler also picks one of
+// n alternatives; 0 is the default. Outside a controlled scheduler it returns 0.
+func PointChoice(label string, n int) int { return park(label, nil, n) }
+
+func park(label string, enabled func() bool, alts int) int {
 	s := cur.Load()
 	if s == nil {
-		return
+		return 0
 	}
 	g := gid()
 	s.mu.Lock()
 	if s.free || g == s.rootGID {
 		s.mu.Unlock()
-		return
+		return 0
 	}
 	name, ok := s.names[g]
 	if !ok {
@@ -139,10 +149,11 @@ func PointIf(label string, enabled func() bool) {
 		name = fmt.Sprintf("lib:%s#%d", label, k)
 		s.names[g] = name
 	}
-	p := &Parked{Name: name, Label: label, Enabled: enabled, ch: make(chan struct{}), gid: g}
+	p := &Parked{Name: name, Label: label, Enabled: enabled, Alts: alts, ch: make(chan struct{}), gid: g}
 	s.parked = append(s.parked, p)
 	s.mu.Unlock()
 	<-p.ch
+	return p.choice
 }
 
 // Snapshot returns the parked goroutines sorted by name. Call at quiescence.
@@ -156,6 +167,12 @@ func (s *Sched) Snapshot() []*Parked {
 
 // IsEnabled evaluates the predicate of a parked goroutine.
 func (p *Parked) IsEnabled() bool { return p.Enabled == nil || p.Enabled() }
+
+// ReleaseAlt lets a goroutine parked at a choice point continue with alternative k.
+func (s *Sched) ReleaseAlt(p *Parked, k int) {
+	p.choice = k
+	s.Release(p)
+}
 
 // Release lets one parked goroutine continue.
 func (s *Sched) Release(p *Parked) {
@@ -200,12 +217,20 @@ func Caller(skip int) string {
 
 // SelectOrder returns the order in which the cases of an instrumented select
 // are tried (a priority select: any ready case may legally be chosen by Go, so
-// this restricts, never extends, the behaviours of the code). The default is
-// source order.
+// this restricts, never extends, the behaviours of the code). It is a choice
+// point: the scheduler picks which case is tried first (default: the first in
+// source order); the others follow in source order.
 func SelectOrder(label string, n int) []int {
-	ord := make([]int, n)
-	for i := range ord {
-		ord[i] = i
+	k := PointChoice(label+" first-case", n)
+	if k < 0 || k >= n {
+		k = 0
+	}
+	ord := make([]int, 0, n)
+	ord = append(ord, k)
+	for i := 0; i < n; i++ {
+		if i != k {
+			ord = append(ord, i)
+		}
 	}
 	return ord
 }
